@@ -87,6 +87,8 @@ class Profile(object):
         self.default_kinds = None       # restrict DEFAULT to these base kinds
         # SIZE bounds on both sides of the one/two-octet length forms and of the 64K limit of PER constrained
         # lengths, beyond max_size_bound (values stay short unless the lower bound forces a length)
+        self.alias_chain_rate = 10      # percent of specs that get 'Ch1 ::= X', 'Ch2 ::= Ch1' and a user of the alias
+        self.same_defaults_rate = 0     # percent of specs whose modules share tag and extensibility defaults
         self.components_of_rate = 0     # percent of specs that get a 'CO ::= SEQUENCE { COMPONENTS OF X, ... }'
         self.big_size_rate = 8
         self.big_size_shapes = BIG_SIZE_SHAPES
@@ -738,9 +740,12 @@ class _G(object):
         P = self.p
         nm = self.d(st.integers(1, P.max_modules))
         mnames = MODULE_NAMES[:nm]
+        same = P.same_defaults_rate and self.chance(P.same_defaults_rate)
         for n in mnames:
             mod = Module(n, self.pick(P.tagdefaults),
                          P.ext_implied and self.chance(12))
+            if same and self.modules:
+                mod.tagdefault, mod.ext_implied = self.modules[0].tagdefault, self.modules[0].ext_implied
             self.modules.append(mod)
         nt = self.d(st.integers(P.min_types, P.max_types))
         tnames = self.d(st.lists(st.sampled_from(TYPE_NAMES), min_size=nt, max_size=nt, unique=True))
@@ -767,7 +772,69 @@ class _G(object):
             self.defaults_via_ref(self.pick(self.modules), set(tnames))
         if P.components_of_rate and self.chance(P.components_of_rate):
             self.components_of()
+        if P.refs and P.alias_chain_rate and self.chance(P.alias_chain_rate):
+            self.alias_chain()
         return Spec(self.modules)
+
+    def alias_chain(self):
+        """Stratification floor: a chain of plain aliases 'Ch1 ::= X', 'Ch2 ::= Ch1' ending in an existing type and a
+        container, preferably in another module that imports only the last alias, whose (often tagged) member refers
+        to it: whether a tag is implicit or explicit, and every constraint and default, must be found through the
+        whole chain and across the module boundary."""
+        allnames = {n for m in self.modules for n, _ in m.types}
+        if not self.avail or allnames & {'Ch1', 'Ch2', 'Use1'}:
+            return
+        # a CHOICE at the end of the chain decides whether tags along the way are explicit: prefer it
+        choices = [a for a in self.avail if a[2] == 'CHOICE']
+        if not choices and 'CHOICE' in self.p.constructed and 'ChC' not in allnames and self.chance(50):
+            m0 = self.pick(self.modules)
+            c = Ty('CHOICE', root=[Member('i', Ty('INTEGER')), Member('b', Ty('BOOLEAN'))])
+            if self.p.ext and self.chance(30):
+                c.ext = []
+            m0.types.append(('ChC', c))
+            self.fix_tags(Spec(self.modules), c, m0)
+            self.avail.append((m0.name, 'ChC', 'CHOICE'))
+            choices = [self.avail[-1]]
+        m1name, x, kind = self.pick(choices if choices and self.chance(50) else self.avail)
+        m1 = [m for m in self.modules if m.name == m1name][0]
+        if len(self.modules) == 1 and self.p.max_modules >= 2 and self.chance(60):
+            # a module of its own for the user of the alias
+            self.modules.append(Module(MODULE_NAMES[1], m1.tagdefault if self.chance(60) else
+                                       self.pick(self.p.tagdefaults), False))
+        m1.types.append(('Ch1', Ty('REF', ref=x)))
+        last, lastmod = 'Ch1', m1
+        others = [o for o in self.modules if o is not m1]
+        if self.chance(50):
+            m2 = self.pick(others) if others and self.chance(50) else m1
+            if m2 is not m1:
+                m2.imports.setdefault(m1.name, []).append('Ch1')
+            m2.types.append(('Ch2', Ty('REF', ref='Ch1')))
+            last, lastmod = 'Ch2', m2
+        others = [o for o in self.modules if o is not lastmod]
+        user = self.pick(others) if others and self.chance(70) else lastmod
+        if user is not lastmod:
+            if any(last in syms for syms in user.imports.values()) or last in user.type_map():
+                return
+            user.imports.setdefault(lastmod.name, []).append(last)
+        spec = Spec(self.modules)
+        spec.link()
+        ck = self.pick(['SEQUENCE', 'SEQUENCE', 'SET', 'CHOICE'] if 'SET' in self.p.constructed else ['SEQUENCE'])
+        p = Member('p', Ty('REF', ref=last))
+        if ck != 'CHOICE' and self.chance(30):
+            p.optional = True
+        t = Ty(ck, root=[p, Member('q', Ty('BOOLEAN'))])
+        user.types.append(('Use1', t))
+        spec = Spec(self.modules)
+        spec.link()
+        self.fix_tags(spec, t, user)
+        if self.p.tags and p.ty.tag is None and user.tagdefault != 'AUTOMATIC' and self.chance(60):
+            p.ty.tag = self.rand_tag(spec, p.ty, user, {('CONTEXT', q.ty.tag.num) for q in t.root
+                                                        if q.ty.tag is not None and q.ty.tag.cls == 'CONTEXT'})
+            if not self.legal(spec, t, user):
+                self.tag_all(spec, t, user)
+        for nm, mod in (('Ch1', m1), (last, lastmod), ('Use1', user)):
+            if (mod.name, nm, kind) not in self.avail:
+                self.avail.append((mod.name, nm, kind if nm != 'Use1' else ck))
 
     def components_of(self):
         """CO ::= SEQUENCE|SET { [co-first T,] COMPONENTS OF X, extra-co BOOLEAN } for a top-level SEQUENCE/SET X, in
